@@ -1254,6 +1254,10 @@ func (w *world) trace(out io.Writer) {
 	for _, l := range ls {
 		fmt.Fprintln(out, "  "+l.s)
 	}
+	for _, f := range w.flushes {
+		fmt.Fprintf(out, "  flush [%d,%d] of entry %s\n", f.beg, f.end, f.entry)
+	}
+	fmt.Fprintf(out, "  entries aborted by Delete (entry -> return time): %v; dirty-while-evictable seen: %v; tag: %q\n", w.aborted, w.dirtyEvictable, w.tag())
 }
 
 // replay re-runs the schedule of a replay artefact and prints what happened.
